@@ -499,13 +499,18 @@ impl Lin for LD {
     (cal().dn(29, 1, 1), LAST - 40)
   }
   fn mk(o: i64) -> Self {
-    LD(sd_of_dn(o).get_lunar_day())
+    // warm value: both per-value memos are filled before any stepping happens
+    let l = sd_of_dn(o).get_lunar_day();
+    let _ = l.get_solar_day();
+    let _ = l.get_sixty_cycle_day();
+    LD(l)
   }
   fn ord(&self) -> Option<i64> {
     dn_of(&self.0.get_solar_day())
   }
   fn canon(&self) -> String {
-    fmt_lymd(lymd(&self.0))
+    let v = self.0.get_sixty_cycle_day();
+    format!("{} civil {} view {} {}", fmt_lymd(lymd(&self.0)), fmt_ymd(ymd(&self.0.get_solar_day())), fmt_ymd(ymd(&v.get_solar_day())), v.get_sixty_cycle().get_name())
   }
   fn step(&self, n: i64) -> Self {
     LD(self.0.next(n as isize))
@@ -565,13 +570,17 @@ impl Lin for LH {
     7200
   }
   fn mk(o: i64) -> Self {
-    LH(st_of_abs(o).get_lunar_hour())
+    let h = st_of_abs(o).get_lunar_hour();
+    let _ = h.get_solar_time();
+    let _ = h.get_sixty_cycle_hour();
+    LH(h)
   }
   fn ord(&self) -> Option<i64> {
     abs_sec_of(&self.0.get_solar_time())
   }
   fn canon(&self) -> String {
-    format!("{} {:02}:{:02}:{:02}", fmt_lymd(lymd(&self.0.get_lunar_day())), self.0.get_hour(), self.0.get_minute(), self.0.get_second())
+    let v = self.0.get_sixty_cycle_hour();
+    format!("{} {:02}:{:02}:{:02} civil {} view {} {} {}", fmt_lymd(lymd(&self.0.get_lunar_day())), self.0.get_hour(), self.0.get_minute(), self.0.get_second(), self.0.get_solar_time(), v.get_solar_time(), v.get_day().get_name(), v.get_sixty_cycle().get_name())
   }
   fn step(&self, n: i64) -> Self {
     LH(self.0.next(n as isize))
@@ -844,8 +853,8 @@ pub fn run(cfg: &Cfg) -> (Log, Meta) {
   run_unit::<TM>(&mut log, mid, cfg, 100, "linear.SolarTerm");
   run_unit::<SW>(&mut log, mid, cfg, 100, "linear.SolarWeek");
   run_unit::<LMo>(&mut log, slow, cfg, 50, "linear.LunarMonth");
-  run_unit::<LD>(&mut log, mid, cfg, 100, "linear.LunarDay");
-  run_unit::<LH>(&mut log, mid, cfg, 100, "linear.LunarHour");
+  run_unit::<LD>(&mut log, slow, cfg, 50, "linear.LunarDay");
+  run_unit::<LH>(&mut log, slow, cfg, 50, "linear.LunarHour");
   run_unit::<LW>(&mut log, slow, cfg, 50, "linear.LunarWeek");
   run_unit::<CD>(&mut log, slow, cfg, 50, "linear.SixtyCycleDay");
   run_unit::<CH>(&mut log, slow, cfg, 50, "linear.SixtyCycleHour");
